@@ -76,7 +76,7 @@ func runC19(r *Report, p *Program) {
 		{hs, "rawHelloInfo.looksLikeFirefox"}, {hs, "rawHelloInfo.looksLikeChrome"}, {hs, "rawHelloInfo.looksLikeEdge"}, {hs, "rawHelloInfo.looksLikeSafari"}, {hs, "rawHelloInfo.looksLikeTor"},
 		{hs, "rawHelloInfo.advertisesHeartbeatSupport"}, {hs, "assertPresenceAndOrdering"}, {hs, "hasGreaseCiphers"},
 		{"caskethttp/push", "parseLinkHeader"}, {"caskethttp/push", "Middleware.servePreloadLinks"},
-		{fcPkg, "(*record).read"}, {fcPkg, "(*streamReader).Read"}, {fcPkg, "(*FCGIClient).Request"}, {fcPkg, "(*FCGIClient).Do"}, {fcPkg, "(*FCGIClient).writePairs"}, {fcPkg, "encodeSize"}, {fcPkg, "(*streamWriter).Write"}, {fcPkg, "(*FCGIClient).writeRecord"},
+		{fcPkg, "Handler.ServeHTTP"}, {fcPkg, "(*record).read"}, {fcPkg, "(*streamReader).Read"}, {fcPkg, "(*FCGIClient).Request"}, {fcPkg, "(*FCGIClient).Do"}, {fcPkg, "(*FCGIClient).writePairs"}, {fcPkg, "encodeSize"}, {fcPkg, "(*streamWriter).Write"}, {fcPkg, "(*FCGIClient).writeRecord"},
 		{hs, "(*replacer).Replace"}, {hs, "(*replacer).getSubstitution"},
 		{baPkg, "parseHtpasswd"},
 		{hs, "Path.Matches"}, {hs, "PathMatcher.Match"}, {hs, "IfMatcher.Match"}, {hs, "ifCond.True"},
@@ -85,6 +85,7 @@ func runC19(r *Report, p *Program) {
 	st := e5Check(h, "R1", scope, c19Exceptions)
 	r.Extra["c19_e5"] = st
 	c19R2(h)
+	c19R3(h)
 }
 
 // c19R2: decided as a table over read segmentations (E10, c19R2Table); the control-flow formulation (c19R2Patterns)
